@@ -101,7 +101,7 @@ func (c *verifTCPConn) RemoteAddr() net.Addr {
 
 func verifNewDNS(h Handler, bufSize int) *ServerDNS {
 	return &ServerDNS{
-		ServerBase: newServerBase(ProtoDNS, ConfigBase{Handler: h}),
+		ServerBase: newServerBase(ProtoDNS, ConfigBase{Handler: h, Disposer: &verifScrambler{}}),
 		workerPool: newPoolNonblocking(),
 		udpPool:    syncutil.NewSlicePool[byte](bufSize),
 		tcpPool:    syncutil.NewSlicePool[byte](bufSize),
